@@ -167,10 +167,13 @@ CONSTRUCTION = ("__init__", "__post_init__", "__new__", "__init_subclass__", "__
 
 
 def _renderer_classes(pkg):
-    """(renderers, helpers): the top-level classes of the renderer modules, split by role.  A RENDERER is a class that defines or
-    inherits a rendering entry point (a method whose name says render) or that other modules of the package refer to (they build it
-    and render through it); everything else defined there -- accumulators, tables, record types -- is a HELPER of the renderers."""
+    """(renderers, helpers): the top-level classes of the renderer modules, split by role.  A RENDERER is a class whose instances
+    are handed to the rest of the package and rendered through: other modules refer to it by name, or a module-level function of
+    the renderer modules that other modules call returns one (a factory), or -- nobody building it inside the renderer modules --
+    it offers a rendering entry point (a method whose name says render); base and derived classes of a renderer are renderers.
+    Everything else defined there -- accumulators, tables, record types built inside the rendering code -- is a HELPER."""
     cands = [ci for ci in sorted(pkg.classes.values(), key=lambda c: c.name) if ci.file in RENDERER_FILES and "." not in ci.name]
+    names = {ci.name for ci in cands}
     outside = set()
     for f, mod in pkg.modules.items():
         if f in RENDERER_FILES:
@@ -182,19 +185,43 @@ def _renderer_classes(pkg):
                 outside.add(n.attr)
             elif isinstance(n, ast.alias):
                 outside.add(n.name.split(".")[-1])
-    renderers, helpers = [], []
+    handed_out, built_inside = set(), set()
+    for f in RENDERER_FILES:
+        mod = pkg.modules.get(f)
+        if mod is None:
+            continue
+        for st in mod.body:
+            if isinstance(st, ast.FunctionDef) and st.name in outside:
+                for r in ast.walk(st):
+                    if isinstance(r, ast.Return) and r.value is not None:
+                        handed_out |= {x.id for x in ast.walk(r.value) if isinstance(x, ast.Name) and x.id in names}
+            elif not isinstance(st, (ast.FunctionDef, ast.AsyncFunctionDef, ast.ClassDef)):
+                # a module-level table of classes (a registry the factory looks the class up in)
+                handed_out |= {x.id for x in ast.walk(st) if isinstance(x, ast.Name) and isinstance(x.ctx, ast.Load) and x.id in names
+                               and not any(isinstance(c, ast.Call) and c.func is x for c in ast.walk(st))}
+        for c in ast.walk(mod):
+            if isinstance(c, ast.Call) and isinstance(c.func, ast.Name) and c.func.id in names:
+                built_inside.add(c.func.id)
+    is_r = set()
     for ci in cands:
-        meths = set()
-        for c in pkg.mro(ci.name):
-            k = pkg.classes.get(c)
-            if k is not None and k.file in RENDERER_FILES:
-                meths |= {m for m, fn in k.methods.items() if isinstance(fn, ast.FunctionDef)}
-        has_methods = any(m not in CONSTRUCTION for m in meths)
-        if any("render" in m.lower() for m in meths) or (ci.name in outside and has_methods):
-            renderers.append(ci)
-        else:
-            helpers.append(ci)
-    return renderers, helpers
+        meths = {m for m, fn in ci.methods.items() if isinstance(fn, ast.FunctionDef)}
+        if (ci.name in outside and any(m not in CONSTRUCTION for m in meths)) or ci.name in handed_out \
+                or (any("render" in m.lower() for m in meths) and ci.name not in built_inside):
+            is_r.add(ci.name)
+    # relatives of a renderer
+    changed = True
+    while changed:
+        changed = False
+        for ci in cands:
+            if ci.name not in is_r and any((c in is_r and c in names) for c in pkg.mro(ci.name)[1:]):
+                is_r.add(ci.name)
+                changed = True
+            if ci.name in is_r:
+                for c in pkg.mro(ci.name)[1:]:
+                    if c in names and c not in is_r:
+                        is_r.add(c)
+                        changed = True
+    return [ci for ci in cands if ci.name in is_r], [ci for ci in cands if ci.name not in is_r]
 
 
 def _kept_instances(pkg, names):
@@ -1189,4 +1216,15 @@ MUTANTS += [
         {"file": TL, "old": _TL_CLS, "new": _TALLY + "_TALLY = _Tally()\n\n\n" + _TL_CLS},
         {"file": TL, "old": _RENDER_HEAD, "new": _RENDER_HEAD + "        _TALLY.note(proj_name)\n"}], "rules": ["R7"]},
     {"name": "loader-remembers-last-network", "file": TL, "old": _RENDER_HEAD, "new": _RENDER_HEAD + "        self._last_network = network\n", "rules": ["R7"]},
+]
+_LINES = ("class _Lines:\n    def __init__(self) -> None:\n        self.rows = []\n\n    def render_row(self, text: str) -> None:\n        self.rows.append(text)\n\n\n")
+BENIGN += [
+    # a helper built inside the rendering code stays a helper even if one of its methods is called render-something
+    {"name": "local-helper-with-render-named-method", "edits": [
+        {"file": TL, "old": _TL_CLS, "new": _LINES + _TL_CLS},
+        {"file": TL, "old": _RENDER_HEAD, "new": _RENDER_HEAD + "        lines = _Lines()\n        lines.render_row(proj_name)\n"}]},
+]
+MUTANTS += [
+    {"name": "patch-remembers-rendered-info", "file": "naunet/patches.py", "old": "    def _render_derived_field(self, info: NetworkInfo, path: Path | str = \"./\") -> None:\n",
+     "new": "    def _render_derived_field(self, info: NetworkInfo, path: Path | str = \"./\") -> None:\n        self._info = info\n", "rules": ["R7"]},
 ]
